@@ -1,0 +1,6 @@
+//go:build !verif
+
+package boltz
+
+// verifPoint marks a point of interest for the verification harness in /verif. Without the verif build tag it does nothing.
+func verifPoint(string) {}
